@@ -114,7 +114,7 @@ def check_roundtrip(v, M, case):
 def gen_table(r):
     """rows with cell counts; returns (lines, first deviating row index or None)"""
     n = r.randint(1, 6)
-    base = r.randint(1, 4)
+    base = r.choice([0, 1, 1, 2, 2, 3, 4])      # 0: a lone '|' or a row whose closing pipe is missing has no cells at all
     counts = [base] * n
     dev = None
     if r.random() < 0.6 and n > 1:
